@@ -371,7 +371,7 @@ func runMCCodec(c *Ctx, jobs []MCJob) ([]EdgeVerdict, *MCStats) {
 			}
 			bw := bufio.NewWriterSize(ef, 1<<20)
 			res, err := RunTLC(filepath.Join(dir, "tlc"), TLCOpts{Spec: "MC_Codec", Cfg: "MC_Codec.cfg", Workers: 1, Timeout: 60 * time.Minute, HeapMB: 4000,
-				Env:      map[string]string{"VERIF_SCHEMA": schema, "VERIF_TYPE": job.Type, "VERIF_MAXLEN": fmt.Sprint(job.MaxLen), "VERIF_EXPORT": "1"},
+				Env:      map[string]string{"VERIF_SCHEMA": schema, "VERIF_TYPE": job.Type, "VERIF_MAXLEN": fmt.Sprint(job.MaxLen), "VERIF_EXPORT": "1", "VERIF_FWD": "1"},
 				LineSink: func(l string) { bw.WriteString(l); bw.WriteByte('\n') }})
 			bw.Flush()
 			ef.Close()
